@@ -137,15 +137,33 @@ func baseNextToken(l *Lexer) token.Token {
 	case '"':
 		// Capture position BEFORE reading the string
 		startLine, startColumn := l.Line, l.Column
-		tok = l.NewTokenAt(token.STRING, l.readString('"'), startLine, startColumn)
+		literal := l.readString('"')
+		if l.CurrentChar == '"' {
+			tok = l.NewTokenAt(token.STRING, literal, startLine, startColumn)
+		} else {
+			// the input ended before the closing delimiter
+			tok = l.NewTokenAt(token.ILLEGAL, literal, startLine, startColumn)
+		}
 	case '\'':
 		// Capture position BEFORE reading the string
 		startLine, startColumn := l.Line, l.Column
-		tok = l.NewTokenAt(token.STRING, l.readString('\''), startLine, startColumn)
+		literal := l.readString('\'')
+		if l.CurrentChar == '\'' {
+			tok = l.NewTokenAt(token.STRING, literal, startLine, startColumn)
+		} else {
+			// the input ended before the closing delimiter
+			tok = l.NewTokenAt(token.ILLEGAL, literal, startLine, startColumn)
+		}
 	case '`':
 		// Capture position BEFORE reading the raw string
 		startLine, startColumn := l.Line, l.Column
-		tok = l.NewTokenAt(token.RAW_STRING, l.readRawString(), startLine, startColumn)
+		literal := l.readRawString()
+		if l.CurrentChar == '`' {
+			tok = l.NewTokenAt(token.RAW_STRING, literal, startLine, startColumn)
+		} else {
+			// the input ended before the closing delimiter
+			tok = l.NewTokenAt(token.ILLEGAL, literal, startLine, startColumn)
+		}
 	case 0:
 		// a NUL byte inside the source is not the end of the input
 		if l.position >= len(l.input) {
